@@ -131,6 +131,9 @@ def l4(ctx: Ctx):
     pats = bank_patterns(ctx)
     invoked = re.compile(pats["INVOKED_PROCEDURE_NAMES"].pattern, pats["INVOKED_PROCEDURE_NAMES"].flags)
     header = re.compile(pats["PROCEDURE_START_PREFIX"].pattern, pats["PROCEDURE_START_PREFIX"].flags)
+    from .rules_bank import bank_cuts_comments, cut_comment
+
+    cuts_comments = bank_cuts_comments(ctx) is True
     for p in L.procs.values():
         mine: Dict[int, List[str]] = {}
         for s in L.all_stmts(p):
@@ -150,17 +153,13 @@ def l4(ctx: Ctx):
         # the bank's regex must see exactly these calls, line by line
         theirs: Dict[int, List[str]] = {}
         for ln, raw in p.lines:
-            f = invoked.findall(raw)
+            f = invoked.findall(cut_comment(raw) if cuts_comments else raw)
             if f:
                 theirs[ln] = [x if isinstance(x, str) else x[0] for x in f]
         diff = {ln for ln in set(mine) | set(theirs) if sorted(mine.get(ln, [])) != sorted(theirs.get(ln, []))}
-        # calls inside comments are seen by the bank only: harmless over-approximation, reported as information
-        real = set()
-        for ln in diff:
-            raw = dict(p.lines)[ln]
-            if raw.strip().startswith("(*"):
-                continue
-            real.add(ln)
+        # (a `run x` in the prose of a comment is seen by the bank only: the bundle then carries a procedure that no
+        # statement calls - the property asks for exactly the reachable ones)
+        real = set(diff)
         ctx.ob(
             f"{p.name}:bank-sees-calls",
             not real,
@@ -223,6 +222,12 @@ def build_blocks(L: B09Lib, p: Proc) -> List[object]:
         elif k in openers.values():
             if not stack or openers[stack[-1][0].kind] != k:
                 raise AnalysisError("L7", f"{p.name}:{s.line}", f"unbalanced {k.upper()}")
+            if k == "next":
+                # NEXT names the variable of the FOR it closes
+                mf_ = re.match(r"(?i)\s*for\s+([a-z_][a-z0-9_]*)", stack[-1][0].head.text if stack[-1][0].head is not None else "")
+                mn_ = re.match(r"(?i)\s*next\s+([a-z_][a-z0-9_]*)", s.text)
+                if mf_ and mn_ and mf_.group(1).lower() != mn_.group(1).lower():
+                    raise AnalysisError("L7", f"{p.name}:{s.line}", f"`{s.text.strip()}` closes `{stack[-1][0].head.text.strip()}`: the NEXT names another variable than its FOR")
             b, parent = stack.pop()
             cur = parent
         else:
@@ -393,7 +398,96 @@ def l7(ctx: Ctx):
                 uses_val = bool(other) and all(re.search(rf"(?i)\bval\(\s*{re.escape(inval)}\s*\)", s.text) for s in other)
                 ctx.ob("ecb_read_filter.empty->0", zero, "" if zero else "the branch taken for an empty DATA item does not assign the constant 0", file=LIB_REL, line=b.head.line, props=["C20", "C03"])
                 ctx.ob("ecb_read_filter.else->val", uses_val, "" if uses_val else "the branch for a non-empty item does not assign VAL(item)", file=LIB_REL, line=b.head.line, props=["C20", "C03"])
-    ctx.need(found, "ecb_read_filter", 'two-armed IF on `<input> = ""` not found')
+    if not found:
+        # the test is spelled differently: decided on values - the branch that the empty item takes is taken by the empty
+        # item only (every DATA text the tool can emit for a number goes to the other one) and assigns 0
+        inval, res = p.params[0][0], p.params[-1][0]
+        top = next((b for b in blocks if isinstance(b, _Block) and b.kind == "if" and b.head is not None and b.orelse is not None), None)
+        ctx.need(top is not None, "ecb_read_filter", "no two-armed IF found")
+        cond_ = _b09_text_cond(top.head.text)
+        ctx.need(cond_ is not None, "ecb_read_filter", f"condition `{top.head.text.strip()}` not understood")
+        samples = ["5.0", "-2.5", "0.5", "31", "0.0", "-0.75", "1e+20", "100.0"]
+        try:
+            at_empty = _text_cond_eval(cond_, {inval: ""})
+            taken = [x for x in samples if _text_cond_eval(cond_, {inval: x}) == at_empty]
+        except ValueError as ex:
+            raise AnalysisError("L7", "ecb_read_filter", f"condition `{top.head.text.strip()}` not evaluable: {ex}")
+        empty_branch, other_branch = (top.body, top.orelse) if at_empty else (top.orelse, top.body)
+        vals = [re.sub(r"\s+", "", s.text.lower()) for s in empty_branch if isinstance(s, Stmt) and s.kind == "assign" and s.target == res]
+        zero = bool(vals) and all(re.fullmatch(rf"{re.escape(res)}:?=0(\.0*)?", v) for v in vals)
+        other = [s for s in other_branch if isinstance(s, Stmt) and s.kind == "assign" and s.target == res]
+        uses_val = bool(other) and all(re.search(rf"(?i)\bval\(\s*{re.escape(inval)}\s*\)", s.text) for s in other)
+        ctx.ob("ecb_read_filter.empty->0", zero, "" if zero else "the branch taken for an empty DATA item does not assign the constant 0", file=LIB_REL, line=top.head.line, props=["C20", "C03"])
+        ctx.ob("ecb_read_filter.else->val", uses_val and not taken, "" if uses_val and not taken else (f"`{top.head.text.strip()}` sends the DATA item \"{taken[0]}\" down the branch of the empty item: READ stores 0 instead of {taken[0]}" if taken else "the branch for a non-empty item does not assign VAL(item)"), file=LIB_REL, line=top.head.line, props=["C20", "C03"], witness="" if not taken else f"10 READ A,B / 20 DATA ,{taken[0]}")
+
+
+def _b09_text_cond(text: str):
+    """The condition of `IF c THEN` over strings and numbers as a Python expression tree (string literals kept)."""
+    import ast as _ast
+
+    m = re.match(r"(?is)^\s*if\s+(.*?)\s+then\b.*$", text)
+    if not m:
+        return None
+    src = m.group(1)
+    parts = re.split(r'("[^"]*")', src)
+    out = []
+    for i, part in enumerate(parts):
+        if i % 2 == 1:
+            out.append(repr(part[1:-1]))
+            continue
+        t = part.lower().replace("<>", "!=").replace("><", "!=")
+        t = re.sub(r"(?<![<>!=])=(?![=])", "==", t)
+        t = re.sub(r"([a-z_][a-z0-9_]*)\$\s*\(", r"\1_S(", t)
+        t = re.sub(r"([a-z_][a-z0-9_]*)\$", r"\1_S", t)
+        out.append(t)
+    try:
+        return _ast.parse("".join(out), mode="eval").body
+    except SyntaxError:
+        return None
+
+
+def _text_cond_eval(e, env):
+    """Value of a condition built by _b09_text_cond (the checker's own evaluator: comparisons, AND/OR/NOT, LEFT$/RIGHT$/MID$/LEN)."""
+    import ast as _ast
+
+    if isinstance(e, _ast.Constant):
+        return e.value
+    if isinstance(e, _ast.Name):
+        k = e.id[:-2] + "$" if e.id.endswith("_S") else e.id
+        if k in env:
+            return env[k]
+        if e.id in env:
+            return env[e.id]
+        raise ValueError(f"unknown name {e.id}")
+    if isinstance(e, _ast.BoolOp):
+        vs = [bool(_text_cond_eval(v, env)) for v in e.values]
+        return all(vs) if isinstance(e.op, _ast.And) else any(vs)
+    if isinstance(e, _ast.UnaryOp) and isinstance(e.op, _ast.Not):
+        return not _text_cond_eval(e.operand, env)
+    if isinstance(e, _ast.UnaryOp) and isinstance(e.op, _ast.USub):
+        return -_text_cond_eval(e.operand, env)
+    if isinstance(e, _ast.Compare) and len(e.ops) == 1:
+        a, b = _text_cond_eval(e.left, env), _text_cond_eval(e.comparators[0], env)
+        if type(a) is not type(b) and not (isinstance(a, (int, float)) and isinstance(b, (int, float))):
+            raise ValueError("comparison of text with number")
+        op = type(e.ops[0])
+        return {_ast.Eq: a == b, _ast.NotEq: a != b, _ast.Lt: a < b, _ast.LtE: a <= b, _ast.Gt: a > b, _ast.GtE: a >= b}[op]
+    if isinstance(e, _ast.Call) and isinstance(e.func, _ast.Name):
+        args = [_text_cond_eval(a, env) for a in e.args]
+        f = e.func.id
+        if f == "left_S" and len(args) == 2:
+            return args[0][: int(args[1])]
+        if f == "right_S" and len(args) == 2:
+            return args[0][len(args[0]) - int(args[1]) :] if int(args[1]) else ""
+        if f == "mid_S" and len(args) == 3:
+            return args[0][int(args[1]) - 1 : int(args[1]) - 1 + int(args[2])]
+        if f == "len" and len(args) == 1:
+            return len(args[0])
+        raise ValueError(f"function {f}")
+    if isinstance(e, _ast.BinOp) and isinstance(e.op, (_ast.Add, _ast.Sub)):
+        a, b = _text_cond_eval(e.left, env), _text_cond_eval(e.right, env)
+        return a + b if isinstance(e.op, _ast.Add) else a - b
+    raise ValueError(f"expression {type(e).__name__}")
 
 
 # ---------------------------------------------------------------------------
